@@ -24,6 +24,10 @@ def B(weights=(9, 5, 2)):
     return g
 
 
+def C(weights=(10, 6)):
+    return [{'engine': 'filesim', 'flavour': 'plain', 'weight': weights[0]}, {'engine': 'filesim', 'flavour': 'asan', 'weight': weights[1]}]
+
+
 def A(weights=(9, 4, 3), extra=None):
     g = [{'engine': 'buildsim', 'flavour': 'plain', 'weight': weights[0]},
          {'engine': 'buildsim', 'flavour': 'asan', 'weight': weights[1]}]
@@ -99,4 +103,11 @@ PROPS = {
                 rule='AddressSanitizer is the oracle (a report ends the worker with exit code 77 and is gated, minimised and replayed like any other violation). boundary profile: n in 1..4 (and up to 2*Epsilon+4), empty dynamic containers, queries at lowest(), below first, above last, max-1, iterators driven to end(), boxes reaching the largest encodable code, absent points beyond all codes; '
                      'plus a slice of every engine\'s ordinary corpus (all classes, incl. MultidimensionalPGMIndex and the C wrapper). non-trivial and distinct = distinct (configuration x input signature) tuples executed under ASan',
                 assumptions=COMMON_ASSUME + ['the claim is bounded to the inputs the engines generate; reads inside an allocation but outside the logical structure are not visible to ASan']),
+    'C11': dict(level='exploration', budget={'quick': Q, 'thorough': T}, groups=C(),
+                rule='one case = (MappedPGMIndex configuration, sorted integer sequence with duplicate runs sized against the search range and the gallop of upper_bound, a history of container operations: create-from-range(F1), write raw file + create-from-raw(F2), reopen(F1/F2), reopen-again, query, destroy in seeded order with several containers alive on one file; I/O faults attached to operations by call index: eintr and short_io on every read/write/writev, fail-stop open_fail/mmap_fail; half of the runs fault-free; E1 for large files)' + '; oracle: lower_bound/upper_bound/count/contains/begin/end/size equal the std algorithms on the original vector for present and absent keys (below front and above back included); under fail-stop faults a constructor may throw std::runtime_error, nothing else. '
+                     'non-trivial and distinct = distinct trace hashes of histories in which >= 1 fault fired inside a create or load (fault-free histories are counted separately); about one small history in eight is expanded into the exhaustive single-fault sweep (every I/O call index x every gating fault kind)',
+                assumptions=COMMON_ASSUME + ['write errors, crashes, torn or lost writes are not injected: no property quantifies over them and the code has no handling (DESIGN.md 3.4)']),
+    'C12': dict(level='exploration', budget={'quick': Q, 'thorough': T}, groups=C(),
+                rule='one case = (MappedPGMIndex configuration, sorted integer sequence with duplicate runs sized against the search range and the gallop of upper_bound, a history of container operations: create-from-range(F1), write raw file + create-from-raw(F2), reopen(F1/F2), reopen-again, query, destroy in seeded order with several containers alive on one file; I/O faults attached to operations by call index: eintr and short_io on every read/write/writev, fail-stop open_fail/mmap_fail; half of the runs fault-free; E1 for large files)' + '; oracle: F1 and F2 byte-identical; header fields (n, first_key, levels_offsets, segments) of every instance equal those of an index built over the same sequence; a reopen leaves the file byte-identical and performs no write-class call on it (shim monitor). non-trivial as C11; includes the exhaustive single-fault sweep on small creations',
+                assumptions=COMMON_ASSUME + ['write errors, crashes, torn or lost writes are not injected: no property quantifies over them and the code has no handling (DESIGN.md 3.4)']),
 }
